@@ -1,35 +1,23 @@
-"""Per-property configuration for the check driver."""
+"""Per-property configuration: one module per property under pylib/propcfg/Cxx.py,
+each defining CONFIG (for the driver) and MANIFEST (text for MANIFEST.json)."""
+import importlib
+import os
+import pkgutil
+import sys
 
 KERNEL = "Coq 8.16.1 kernel (Debian build), full .vo compilation through coq_makefile/make; vm_compute used in computed-agreement lemmas, refutation witnesses and correspondence evaluation; native_compute not used"
 HARNESS = "Go correspondence harness (/verif/harness): generators, canonicalisers, comparators; its generator quality bounds the tie"
-TRANSLATOR = "translator harness/cmd/j5gen (go/ast): trusted to report Go tables faithfully; output is human-readable coq/gen/*.v"
+TRANSLATOR = "translator (harness/cmd/gen_*, go/ast): trusted to report Go tables faithfully; output is human-readable coq/gen/*.v"
 CORR = "correspondence evaluated inside Coq: cases_*.v written by the harness, model run by vm_compute, no extraction"
 
-PROPS = {
-    "C20": {
-        "props_file": "props/C20.v",
-        "coq_targets": ["props/C20.vo", "model/Id62Corr.vo"],
-        "level": "proof",
-        "trusted_base": [
-            KERNEL, TRANSLATOR + " (Id62Gen.v: PatternString literal, references from fields.go and schema_from_proto.go)", CORR, HARNESS,
-            "modelled, not verified: math/big SetBytes/Text(62)/SetString(62)/Bytes, fmt %022s padding, regexp for the one pattern form ^[ranges]{n}$, crypto/sha1 (lib/Sha1.v, checked against FIPS vector and crypto/sha1 by correspondence)",
-        ],
-        "assumptions": [
-            "model/Id62.v is the hand-written model of lib/id62/uuid62.go; it is tied to the code by the correspondence stream of this run and by the regenerated pattern string",
-            "identifiers are byte lists of length 16 with every byte < 256 (wf_id), strings are byte lists",
-        ],
-        "mult_search": 4,
-    },
-}
+_here = os.path.dirname(os.path.abspath(__file__))
+PROPS, MANIFEST_TEXT = {}, {}
+for _m in sorted(pkgutil.iter_modules([os.path.join(_here, "propcfg")]), key=lambda m: m.name):
+    if not _m.name.startswith("C"):
+        continue
+    mod = importlib.import_module("propcfg." + _m.name)
+    PROPS[_m.name] = mod.CONFIG
+    MANIFEST_TEXT[_m.name] = mod.MANIFEST
 
-# properties not (yet) claimed, with the reason shown in MANIFEST.json
-_PENDING = "check not built yet in this round; the property is within reach of the technique (see DESIGN.md section 4) and is not claimed until its model, theorems and correspondence exist"
+_PENDING = "check not built yet; the property is within reach of the technique (DESIGN.md section 4) and is not claimed until its model, theorems and correspondence exist"
 NOT_APPLICABLE = {("C%02d" % i): _PENDING for i in range(1, 21)}
-
-MANIFEST_TEXT = {
-    "C20": {
-        "text": "Theorems over a Gallina model of base62String/parseBase62/Pattern/NewHash, for all 2^128 identifiers and all strings: render is total and yields 22 characters matching the pattern string read from the Go source; parse(render b) = b, hence injectivity; parse never panics, returns exactly the denoted magnitude, and rejects magnitudes >= 2^128; NewHash depends only on the concatenation of its arguments. The model is tied to the code by re-reading PatternString on every run and by evaluating model and implementation on the same identifiers/strings.",
-        "note": "Trusted: Coq kernel; the translator; the correspondence harness; math/big, fmt padding, regexp and crypto/sha1 are modelled, not verified. All C20 theorems are closed under the global context (no axioms).",
-        "technique": "Rocq/Coq proof (radix round-trip by induction) + regenerated pattern table + in-Coq differential correspondence",
-    },
-}
